@@ -63,7 +63,7 @@ def deliveriesSpec (cfg : Cfg) (env : Nat → Step) : Nat → List Nat → List 
   | _, _, [] => []
   | i, await, f :: fs =>
     let aw := awaitNow await (env i)
-    expectedDeliveries cfg i f (aw.contains f.id) (env i).beh ++ deliveriesSpec cfg env (i + 1) (awaitAfter aw f.id) fs
+    expectedDeliveries cfg i f (isAwaited aw f.typ f.id) (env i).beh ++ deliveriesSpec cfg env (i + 1) (awaitAfter aw f.typ f.id) fs
 
 theorem specRun_deliveries (cfg : Cfg) (env : Nat → Step) :
     ∀ fs i off aw closed, (specRun cfg env i off aw closed fs).deliveries = deliveriesSpec cfg env i aw fs := by
